@@ -218,8 +218,10 @@ def run_coop(seed, profile, backend, tid, hook=None):
                                 op["result"] = list(results[j])
                             if descr[j]["kind"] == "qnet":
                                 op["net"] = net_triples(state.result)
-                            if descr[j]["kind"] in ("qoutlinks", "qinlinks"):
+                            if descr[j]["kind"] in ("qoutlinks", "qinlinks", "qchildren"):
                                 op["weids"] = list(results[j])
+                            if descr[j]["kind"] == "qpagelinks":
+                                op["net"] = [{"s": s, "t": tg, "w": w} for s, tg, w in (state.result or [])]
                 except StopIteration:
                     op["done"] = True
                     live.remove(j)
@@ -310,8 +312,10 @@ def replay_coop(backend, default, rules, ops, tid=0):
                                     o2["result"] = list(results[j])
                                 if descr[j]["kind"] == "qnet":
                                     o2["net"] = net_triples(state.result)
-                                if descr[j]["kind"] in ("qoutlinks", "qinlinks"):
+                                if descr[j]["kind"] in ("qoutlinks", "qinlinks", "qchildren"):
                                     o2["weids"] = list(results[j])
+                                if descr[j]["kind"] == "qpagelinks":
+                                    o2["net"] = [{"s": s, "t": tg, "w": w} for s, tg, w in (state.result or [])]
                     except StopIteration:
                         o2["done"] = True
                     except Exception as e:
